@@ -61,7 +61,7 @@ def run(ctx, stds=("c++17",)):
                                                        "log": c.stderr[-2500:], "lib_rs": c01_extra.BRIDGE}, True)
             return n
         got = [l for l in r.stdout.split("\n") if l.strip()]
-        want = c01_extra.expected()
+        want = c01_extra.expected(writeable_struct=False)
         for g, w in zip(got + ["<missing>"] * (len(want) - len(got)), want):
             n += 11
             if g != w:
